@@ -231,7 +231,7 @@ func runC04Cut(t fataler, mode c03Mode, msgs []inMsg, frames []ref.Frame, ends [
 
 func TestC04(t *testing.T) {
 	rec := evid.For("C04")
-	rec.Rule = "rapid draws a scripted stream (2-5 messages, 1-4 fragments each, optional interleaved Ping/Pong, uncompressed or compressed with either takeover setting and any foreign deflater, binary-only and JSON flavours for the NetConn / wsjson views); the check then enumerates EVERY cut offset 0..len(stream) x transport termination {EOF, io.ErrUnexpectedEOF, reset error} with the observation API (Reader+Read with two buffer sizes, Conn.Read, NetConn.Read, wsjson.Read) rotating per cut and all APIs at offsets within 2 bytes of a frame boundary. Non-trivial: the cut lies strictly inside a message (inside a header, between fragments, inside a payload). distinct = hash(stream shape, cut position kind, termination, API, compression)."
+	rec.Rule = "rapid draws a scripted stream (2-5 messages, 1-4 fragments each, optional interleaved Ping/Pong, in a fifth of the streams a Close frame (1000/1001) between two fragments of a message and nothing behind it, uncompressed or compressed with either takeover setting and any foreign deflater, binary-only and JSON flavours for the NetConn / wsjson views); the check then enumerates EVERY cut offset 0..len(stream) x transport termination {EOF, io.ErrUnexpectedEOF, reset error} with the observation API (Reader+Read with two buffer sizes, Conn.Read, NetConn.Read, wsjson.Read) rotating per cut and all APIs at offsets within 2 bytes of a frame boundary. Non-trivial: the cut lies strictly inside a message (inside a header, between fragments, inside a payload). distinct = hash(stream shape, cut position kind, termination, API, compression)."
 	maxLen := 300
 	if evid.Thorough() {
 		maxLen = 2500
@@ -260,6 +260,38 @@ func c04Case(rt *rapid.T, rec *evid.Rec, maxLen, sample int) {
 			maxMsgs = 2
 		}
 		msgs, frames := genInStream(rt, inStreamOpts{Deflate: deflate, Takeover: takeover, MaxMsgs: maxMsgs, MaxLen: maxLen, MaxFrags: 4, Controls: true, AllowBFin: true, JSONish: flavour == "json"})
+		closeMid := ""
+		if rapid.IntRange(0, 4).Draw(rt, "closeInsideMessage") == 0 {
+			// the peer sends a Close frame (normal closure / going away) between two fragments of a
+			// message and nothing after it: the message in progress never completes, whatever the
+			// API makes of the close status
+			var cands []int
+			for mi, m := range msgs {
+				if len(m.Frags) >= 2 {
+					cands = append(cands, mi)
+				}
+			}
+			if len(cands) > 0 {
+				mi := cands[rapid.IntRange(0, len(cands)-1).Draw(rt, "closeInMsg")]
+				j := rapid.IntRange(1, len(msgs[mi].Frags)-1).Draw(rt, "closeBeforeFragment")
+				fi := 0
+				for k := 0; k < mi; k++ {
+					fi += len(msgs[k].Frags)
+					for _, cs := range msgs[k].Controls {
+						fi += len(cs)
+					}
+				}
+				for jj := 0; jj < j; jj++ {
+					fi += len(msgs[mi].Controls[jj]) + 1
+				}
+				fi += len(msgs[mi].Controls[j])
+				code := rapid.SampledFrom([]int{1000, 1001}).Draw(rt, "closeCode")
+				cf := ref.Frame{Fin: true, Opcode: ref.OpClose, Payload: ref.ClosePayload(code, "")}
+				msgs[mi].Controls[j] = append(msgs[mi].Controls[j], cf)
+				frames = append(frames[:fi:fi], cf)
+				closeMid = fmt.Sprintf("|close%d-in-msg%d-before-frag%d", code, mi, j)
+			}
+		}
 		if flavour == "binary" {
 			for i := range frames {
 				if frames[i].Opcode == ref.OpText {
@@ -291,7 +323,7 @@ func c04Case(rt *rapid.T, rec *evid.Rec, maxLen, sample int) {
 			}
 			start = ends[i]
 		}
-		shape := mode.Name + "|" + flavour
+		shape := mode.Name + "|" + flavour + closeMid
 		for _, m := range msgs {
 			shape += fmt.Sprintf("|%v%v%d/%d", m.Compressed, m.Variant, len(m.Frags), lenClass(m.Len))
 		}
